@@ -164,7 +164,23 @@ func C09(p *load.Program, run *report.Run) {
 				}
 				// rewiring
 				g := gobj.V.(fpai.StructV)
+				removed := false
 				for i := 0; i < gs.NumFields(); i++ {
+					if gs.Field(i).Name() == "Dead" {
+						if bv, ok := g.F[i].(fpai.BoolV); ok && bv.Known && bv.B {
+							removed = true
+						}
+					}
+				}
+				for i := 0; i < gs.NumFields(); i++ {
+					if removed {
+						// a gate the pass removes is neither numbered nor compiled: its inputs are read by nobody
+						// (that it does not drive a circuit output is rule dead-gate-not-output)
+						if n := gs.Field(i).Name(); n == "A" || n == "B" {
+							run.OK("constprop-rewire", key+"/input "+n, p.Rel(fn.Pos()), "the gate is removed")
+						}
+						continue
+					}
 					name := gs.Field(i).Name()
 					if name != "A" && name != "B" {
 						continue
